@@ -692,11 +692,19 @@ class Hugr(Mapping[Node, NodeData], Generic[OpVarCov]):
         ) -> tuple[tuple[NodeIdx, PortOffset], tuple[NodeIdx, PortOffset]]:
             src, dst = link
             s, d = self._constrain_offset(src.port), self._constrain_offset(dst.port)
-            return (src.port.node.idx, s), (dst.port.node.idx, d)
+            return (new_idx[src.port.node.idx], s), (new_idx[dst.port.node.idx], d)
+
+        # non contiguous indices will be erased: live nodes are renumbered in
+        # order, and parents and link endpoints have to follow
+        live = [idx for idx, node in enumerate(self._nodes) if node is not None]
+        new_idx = {old: new for new, old in enumerate(live)}
+
+        def _serialize_node(idx: int, node: NodeData) -> SerialOp:
+            parent = Node(new_idx[node.parent.idx]) if node.parent else None
+            return replace(node, parent=parent)._to_serial(Node(idx, {}))
 
         return SerialHugr(
-            # non contiguous indices will be erased
-            nodes=[node._to_serial(Node(idx, {})) for idx, node in enumerate(node_it)],
+            nodes=[_serialize_node(idx, node) for idx, node in enumerate(node_it)],
             edges=[_serialize_link(link) for link in self._links.items()],
             metadata=[node.metadata if node.metadata else None for node in node_it],
         )
